@@ -91,6 +91,30 @@ def check_relations(cfg, a, b, cl2=None):
     return fails
 
 
+def reassign_case(seed):
+    """one metric object whose public attributes (confidence_level, alternative, equal_var, use_t) are reassigned between
+    analyses: every analysis equals that of a fresh metric constructed with the attributes' current values"""
+    import random
+    import tea_tasting.metrics.mean as M
+    rng = random.Random(seed)
+    a, b = _float_aggs(rng)
+    m = M.RatioOfMeans("x", "y") if rng.random() < 0.5 else M.Mean("x")
+    fails = []
+    for step in range(4):
+        cur = dict(alternative=rng.choice(meanx.ALTS), confidence_level=rng.choice([0.8, 0.9, 0.95, 0.99]),
+                   equal_var=rng.random() < 0.5, use_t=rng.random() < 0.5)
+        for k, v in cur.items():
+            setattr(m, k, v)
+        try:
+            got = tuple(m.analyze_aggregates(a, b))
+            fresh = tuple((M.RatioOfMeans("x", "y", **cur) if type(m) is M.RatioOfMeans else M.Mean("x", **cur)).analyze_aggregates(a, b))
+        except (ZeroDivisionError, ValueError, OverflowError):
+            continue
+        if not all(x == y or (x != x and y != y) for x, y in zip(got, fresh)):
+            fails.append(f"step {step}: after setting {cur} the reused metric gives {got[3:5]} / p={got[8]}, a fresh metric {fresh[3:5]} / p={fresh[8]}")
+    return fails
+
+
 def _float_aggs(rng):
     rows1 = G.rand_rows(rng, rng.choice([2, 3, 10, 50]), style=rng.choice(["generic", "positive", "ints", "correlated"]))
     rows2 = G.rand_rows(rng, rng.choice([2, 5, 12, 40]), style=rng.choice(["generic", "positive", "ints", "correlated"]))
@@ -98,6 +122,13 @@ def _float_aggs(rng):
 
 
 def oracle(ctx, deep=False):
+    for _ in range(ctx.n(10, 200)):
+        seed = ctx.rng.randint(0, 10**6)
+        ctx.evaluations += 1
+        ctx.count("oracle:reassigned-attributes")
+        for f in reassign_case(seed)[:1]:
+            ctx.violations.append({"what": "reused metric object: result does not follow its current attributes", "detail": f,
+                                   "input": {"reassign": True, "seed": seed}})
     n = ctx.n(300, 6000) * (3 if deep else 1)
     done = 0
     for i in range(n):
@@ -212,6 +243,9 @@ def oracle(ctx, deep=False):
 
 def replay(ctx, rp):
     inp = rp["input"]
+    if inp.get("reassign"):
+        fails = reassign_case(inp["seed"])
+        return {"fails": bool(fails), "failures": fails}
     cfg = meanx.cfg_from_json(inp["cfg"])
     a, b = G.agg_from_json(inp["control"], float), G.agg_from_json(inp["treatment"], float)
     fails = check_relations(cfg, a, b, F(inp["cl2"]) if inp.get("cl2") else None) or []
